@@ -148,9 +148,10 @@ CHECKS.update({
     "C11": dict(
         text="Lean: C11.coherent_plain / coherent_clean - for variable-on-the-left comparison, ~= and wildcard atoms on "
              "python_version / python_full_version / platform_release, the specifier view admits the environment's (final) "
-             "version exactly when _evaluate is true (through C04's leaf theorem for every operator and C01); lexOne_of_clean "
-             "discharges the character-level lexing hypothesis for values without `,`, `|`, blanks. from_specifier (specifier "
-             "-> atom), in/not in lists and literal-on-the-left atoms are decided differentially: every atom x interpreter "
+             "version exactly when _evaluate is true (through C04's leaf theorem for every operator and C01); coherent_reversed: "
+             "the same for literal-on-the-left atoms with ordering/equality operators (the environment's value becomes the "
+             "specifier, the literal the candidate). lexOne_of_clean discharges the character-level lexing hypothesis for values "
+             "without `,`, `|`, blanks. from_specifier (specifier -> atom) and in/not in lists are decided differentially: every atom x interpreter "
              "version grid compares `v in marker.specifier` with evaluate(), and from_specifier output with the specifier.",
         technique="Lean 4 proof (atom -> specifier direction) + exhaustive-grid differential testing of both directions",
         design_ref="6/C11"),
